@@ -176,6 +176,31 @@ def main(chk):
     except Exception as e:
       chk.violation(key, f'raised {type(e).__name__}: {str(e)[:160]}', case)
 
+  # CIRCULAR padding and transpose_kernel: no index relation is asserted here (the alignment of the periodic wrap is a convention of
+  # the implementation); what the property states independently of it: Linen and NNX agree on the same parameters, the output
+  # has L * stride positions, and a circular shift of the input by one position shifts the output by `stride` positions
+  for L, K, st, kd, tk in itertools.product((3, 4, 5), (1, 2, 3), (1, 2, 3), (1, 2), (False, True)):
+    key = f'C12:convT:CIRCULAR:L={L}:K={K}:s={st}:kd={kd}:transpose_kernel={tk}'
+    x = ints((1, L, 2))
+    w = ints((K, 2, 2))
+    try:
+      lin = nn.ConvTranspose(2, (K,), strides=(st,), padding='CIRCULAR', kernel_dilation=(kd,), use_bias=False, transpose_kernel=tk)
+      y = np.asarray(lin.apply({'params': {'kernel': jnp.asarray(w)}}, jnp.asarray(x)))
+      y_shift = np.asarray(lin.apply({'params': {'kernel': jnp.asarray(w)}}, jnp.asarray(np.roll(x, 1, axis=1))))
+      nx = nnx.ConvTranspose(2, 2, (K,), strides=(st,), padding='CIRCULAR', kernel_dilation=(kd,), use_bias=False, transpose_kernel=tk, rngs=nnx.Rngs(0))
+      nx.kernel.value = jnp.asarray(w)
+      yn = np.asarray(nx(jnp.asarray(x)))
+    except Exception as e:
+      chk.violation(key, f'raised {type(e).__name__}: {str(e)[:160]}', {})
+      continue
+    chk.count(key)
+    if y.shape != (1, L * st, 2):
+      chk.violation(key, f'output shape {y.shape}, expected {(1, L * st, 2)}', {})
+    elif not np.array_equal(y_shift, np.roll(y, st, axis=1)):
+      chk.violation(key, 'nn.ConvTranspose(CIRCULAR) is not equivariant under circular shifts of the input', {})
+    if yn.shape != y.shape or not np.array_equal(yn, y):
+      chk.violation(key + ':nnx', 'nnx.ConvTranspose(CIRCULAR) differs from nn.ConvTranspose with the same parameters', {})
+
   # ------------------------------------------------------------------------------------------------ pooling
   rp = tlc.require_ok(tlc.run('LayerIndex', 'LayerIndex_pool.cfg', workers=1, timeout=900), 'LayerIndex pool')
   chk.add_tlc(rp, 'LayerIndex pooling windows')
@@ -285,6 +310,16 @@ def main(chk):
           chk.violation(key + ':nnx', f'nnx {kind} norm differs from the Linen layer with the same parameters (max {np.abs(y2 - y).max():.3g})', {'kind': kind})
         if upd is not None and (not np.allclose(np.asarray(n2.mean.value), gm, rtol=1e-5, atol=1e-5) or not np.allclose(np.asarray(n2.var.value), gv, rtol=1e-4, atol=1e-4)):
           chk.violation(key + ':nnx', 'nnx.BatchNorm running statistics differ from Linen', {'kind': kind})
+        if upd is not None:
+          # the mode chosen at call time overrides the attribute: a module in eval mode called with use_running_average=False
+          n3 = nnx.BatchNorm(4, use_running_average=True, momentum=0.5, epsilon=eps, rngs=nnx.Rngs(0))
+          n3.mean.value, n3.var.value = stats['mean'], stats['var']
+          n3.scale.value, n3.bias.value = jnp.asarray(scale, jnp.float32), jnp.asarray(bias, jnp.float32)
+          y3 = np.asarray(n3(xj, use_running_average=False), np.float64)
+          if (trial != 2 and not np.allclose(y3, y, rtol=1e-5, atol=1e-5)) or not np.allclose(np.asarray(n3.mean.value), gm, rtol=1e-5, atol=1e-5) \
+             or not np.allclose(np.asarray(n3.var.value), gv, rtol=1e-4, atol=1e-4):
+            chk.violation(key + ':nnx-call-override', 'nnx.BatchNorm(use_running_average=True)(x, use_running_average=False): output / running statistics '
+                                                      'differ from training mode (momentum*old + (1-momentum)*batch)', {'kind': kind})
   # masked statistics (LayerNorm)
   x = ints((2, 3, 4), -5, 6).astype(np.float64)
   mask = np.array([1, 1, 0, 1], bool)
